@@ -28,6 +28,6 @@ For each change deliver in %(wt)s/seed1/ and %(wt)s/seed2/:
   - patch.diff : unified diff produced by `git -C %(wt)s diff` for that change alone (the worktree must be clean of the other change when you produce it; verify it applies with `git apply --check` on a clean tree)
   - demo.py : a small standalone program run as `PYTHONPATH=%(wt)s/src /venv/bin/python demo.py` that exits 0 and prints PASS on the unmodified code and exits 1 and prints FAIL with your change applied; it must check the property itself (compare against an independent expectation computed with numpy / plain Python), not an implementation detail
   - meta.json : {"property": "%(id)s", "title": "...", "what_it_breaks": "...", "needs_to_manifest": "...", "files_changed": [...], "ran": ["commands you ran and their outcome"]}
-Leave the worktree itself clean at the end (git -C %(wt)s checkout -- . ; only the untracked seed1/ seed2/ directories remain). Your final message: a short summary of both changes and confirmation of (1) and (2) with the observed outputs.""" % dict(
+Do NOT use `git stash` (the stash is shared between worktrees of one repository and other agents work in sibling worktrees); to switch between the clean tree and your change use `git diff > file`, `git checkout -- .` and `git apply file`. Leave the worktree itself clean at the end (git -C %(wt)s checkout -- . ; only the untracked seed1/ seed2/ directories remain). Your final message: a short summary of both changes and confirmation of (1) and (2) with the observed outputs.""" % dict(
     wt=wt, id=p['id'], title=p['title'], statement=p['statement'], qtext=p['quantifier']['text'], files=', '.join(p['anchors']['files'])))
 PY
